@@ -395,7 +395,7 @@ def _group_removal(ctx):
     for node in body:
         if node.kind != 'stmt':
             continue
-        mine = [f for f in facts[node] if any(
+        mine = [f for f in N.raw_only(facts[node]) if any(
             m == var or m.startswith(var + '.') for m in f.mentions)]
         if not mine:
             continue
